@@ -10,15 +10,15 @@ import (
 
 type profile struct {
 	Enums, Unions, Structs, NamedBasics, Containers, Time, SubPkg, Generics, Embedded bool
-	Pointers    bool // pointer fields (analysis supports them; most generators refuse)
-	Unsupported bool // chan, func, anonymous struct, empty interface, complex: analysis must refuse with a diagnostic
-	Recursive   bool // self / mutually recursive structs through slices and maps
-	OddNames    bool // one-letter type names, short package names
-	MultiConst  bool // const A, B T = 0, 1
-	AnonUnion   bool // anonymous containers of unions (gounions refuses)
-	SQL         bool // model-file shape: id fields, foreign keys, comments
-	TagsAll     bool // every json tag spelling
-	ModShape    int  // 0: example.com/org/mod, 1: one element, 2: deep, 3: random
+	Pointers                                                                          bool // pointer fields (analysis supports them; most generators refuse)
+	Unsupported                                                                       bool // chan, func, anonymous struct, empty interface, complex: analysis must refuse with a diagnostic
+	Recursive                                                                         bool // self / mutually recursive structs through slices and maps
+	OddNames                                                                          bool // one-letter type names, short package names
+	MultiConst                                                                        bool // const A, B T = 0, 1
+	AnonUnion                                                                         bool // anonymous containers of unions (gounions refuses)
+	SQL                                                                               bool // model-file shape: id fields, foreign keys, comments
+	TagsAll                                                                           bool // every json tag spelling
+	ModShape                                                                          int  // 0: example.com/org/mod, 1: one element, 2: deep, 3: random
 }
 
 func fullProfile() profile {
